@@ -22,11 +22,13 @@ from lib.doubles import LN2, fr, frf
 from lib.tlc import MachineryError
 
 
-def opt(b: Any, like: torch.Tensor, as_tensor: bool):
+def opt(b: Any, like: torch.Tensor, form: str):
     if b == []:
         return None
     v = frf(b)
-    return torch.full_like(like, v) if as_tensor else torch.tensor(v, dtype=like.dtype)
+    if form == "number":
+        return v                      # plain Python number
+    return torch.full_like(like, v) if form == "tensor" else torch.tensor(v, dtype=like.dtype)
 
 
 def replay_clamp(ctx: Ctx, recs: List[Dict[str, Any]]) -> None:
@@ -46,7 +48,7 @@ def replay_clamp(ctx: Ctx, recs: List[Dict[str, Any]]) -> None:
             x = torch.tensor([frf(r["x"]) for r in rs], dtype=dtype)
             exp_leaky = torch.tensor([frf(r["leaky"]) for r in rs], dtype=dtype)
             exp_clamp = torch.tensor([frf(r["clamp"]) for r in rs], dtype=dtype)
-            for as_tensor in (False, True):
+            for as_tensor in ("scalar-tensor", "tensor", "number"):
                 l, h = opt(lo, x, as_tensor), opt(hi, x, as_tensor)
                 calls = [("leaky_clamp", lambda: F.leaky_clamp(x, l, h, clamped_slope=slope, inverted_output=mode), exp_leaky),
                          ("LeakyClamp", lambda: _module(LeakyClamp, ctx, "LeakyClamp", {"clamped_slope": slope, "inverted_output": mode})(x, l, h), exp_leaky)]
